@@ -27,6 +27,7 @@
   OBLIGATION c17_witness_dynamic_registration
   OBLIGATION c17_witness_compose_url
   OBLIGATION c17_witness_federation_scalar_any
+  OBLIGATION c17_witness_federation_fields
   OBLIGATION c17_tokens_compose_block
   OBLIGATION c17_tokens_wf_any_order
   OBLIGATION c17_compose_groups_spec
@@ -195,6 +196,19 @@ theorem c17_witness_federation_scalar_any :
       some (.type false "Any".toList none [] .scalar) := by
   refine ⟨by decide, by decide, rfl⟩
 
+def fedFieldWitness : TypeDef :=
+  .object "Foo".toList {} false [] [⟨"_service".toList, {}, .named "Int".toList true, []⟩]
+
+/-- a user's field named `_service` on a type that is not the query root, in a federation export:
+    with the toggle the field is left out and the type is written with empty braces, which is no
+    type-system document; the repaired exporter writes the field -/
+theorem c17_witness_federation_fields :
+    exportType { fedFieldsEverywhere := true } { federation := true } fedFieldWitness = "type Foo {\n}\n\n".toList ∧
+    AGV.Spec.SdlParse.parseSchema "type Foo {\n}\n\n".toList = none ∧
+    exportType Defects.none { federation := true } fedFieldWitness = "type Foo {\n\t_service: Int\n}\n\n".toList ∧
+    fedRoot { federation := true } "Query".toList fedFieldWitness = some fedFieldWitness := by
+  refine ⟨by decide, by decide, by decide, rfl⟩
+
 -- ------------------------------------------------------------------ the document: type-definition skeleton
 
 section Skeleton
@@ -202,12 +216,26 @@ open AGV.Core AGV.Core.PAst AGV.Spec.SdlParse AGV.Lemmas.SdlLex AGV.Lemmas.SdlSk
 
 /-- the type definitions of the exported document: the first part of `exportSdl` -/
 def typeDefsText (S : Schema) (o : Opts) : Text :=
-  (((sortByName TypeDef.name S.types).filter (typeExported o)).map (exportType Defects.none o)).flatten
+  ((writtenTypes S o).map (exportType Defects.none o)).flatten
 
 /-- the type definitions of the required document: the first part of `describe` -/
 def typeDefsDoc (o : Opts) (S : Schema) : List SDef :=
   ((sorted true TypeDef.name S.types).filter
-    (fun t => !startsDunder t.name && !(o.federation && federationTypeNames.contains t.name))).filterMap (dType o)
+    (fun t => !startsDunder t.name && !(o.federation && federationTypeNames.contains t.name))).filterMap
+      (fun t => (dRoot o S.query t).bind (dType o))
+
+/-- in a plain export the query root is a type like any other -/
+theorem fedRoot_plain (o : Opts) (ho : o.federation = false) (q : Text) (t : TypeDef) : fedRoot o q t = some t := by
+  cases t <;> simp [fedRoot, ho]
+
+theorem dRoot_plain (o : Opts) (ho : o.federation = false) (q : Text) (t : TypeDef) : dRoot o q t = some t := by
+  cases t <;> simp [dRoot, ho]
+
+theorem writtenTypes_plain (S : Schema) (o : Opts) (ho : o.federation = false) :
+    writtenTypes S o = (sortByName TypeDef.name S.types).filter (typeExported o) := by
+  unfold writtenTypes
+  have : fedRoot o S.query = some := funext (fedRoot_plain o ho S.query)
+  rw [this, List.filterMap_some]
 
 theorem register_none (k : Kind) (S : Schema) : register Defects.none k S = S := by
   unfold register
@@ -248,8 +276,11 @@ theorem c17_tokens_partial (k : Kind) (S : Schema) (o : Opts) (ho : o.federation
     have : sorted true TypeDef.name S.types = sortByName TypeDef.name S.types := rfl
     rw [this]
     congr 1
-  unfold typeDefsDoc at hne ⊢
-  rw [hfilt] at hne ⊢
+  have hdr : (fun t => (dRoot o S.query t).bind (dType o)) = dType o := by
+    funext t; rw [dRoot_plain o ho]; rfl
+  unfold typeDefsDoc typeDefsText at *
+  rw [hfilt, hdr] at hne ⊢
+  rw [writtenTypes_plain S o ho]
   have hmem : ∀ t ∈ (sortByName TypeDef.name S.types).filter (typeExported o), t ∈ S.types :=
     fun t ht => List.mem_mergeSort.mp (List.mem_filter.mp ht).1
   have hx : ∀ L : List TypeDef, (∀ t ∈ L, SkelType t) → L.filterMap (xType o) = L.filterMap (dType o) := by
@@ -263,8 +294,7 @@ theorem c17_tokens_partial (k : Kind) (S : Schema) (o : Opts) (ho : o.federation
       simp only [List.filterMap_cons, xType_plain o ho t ha, ih (fun x hx => hL x (List.mem_cons_of_mem _ hx))]
   have hfm := hx _ (fun t ht => hS t (hmem t ht))
   rw [← hfm] at hne ⊢
-  refine parse_typeDefs o _ (fun t ht => ⟨hS t (hmem t ht), ?_⟩) hne
-  cases t <;> simp [FedFields, ho]
+  exact parse_typeDefs o _ (fun t ht => ⟨hS t (hmem t ht), trivial⟩) hne
 
 
 /-- a schema with an object (fields with arguments, list / non-null wrappers, implements, a
@@ -318,7 +348,7 @@ example : (∀ t ∈ fullWitness.types, SkelType t) ∧ typeDefsDoc {} fullWitne
       rw [if_pos rfl, List.mem_mergeSort]
       simp [fullWitness]
     have hmem : ∀ d, dType {} (TypeDef.interface "Node".toList {} false [] [⟨"id".toList, {}, .named "ID".toList false, []⟩]) = some d →
-        d ∈ typeDefsDoc {} fullWitness := fun d hd => List.mem_filterMap.mpr ⟨_, hm, hd⟩
+        d ∈ typeDefsDoc {} fullWitness := fun d hd => List.mem_filterMap.mpr ⟨_, hm, by rw [dRoot_plain _ rfl]; exact hd⟩
     have := hmem _ rfl
     rw [h] at this
     cases this
@@ -366,10 +396,10 @@ theorem lexAll_percent (rest : Text) (f : Nat) :
     simp only [contTok, lexAll_percent0, Option.map_none]
 
 theorem types_percent :
-    (((sortByName TypeDef.name percentWitness.types).filter (typeExported {})).map (exportType Defects.none {})).flatten =
+    ((writtenTypes percentWitness {}).map (exportType Defects.none {})).flatten =
       ['s', 'c', 'a', 'l', 'a', 'r', ' ', '%', '\n', '\n'] := by
   have : sortByName TypeDef.name percentWitness.types = percentWitness.types := by simp [sortByName, percentWitness]
-  rw [this]; decide
+  rw [writtenTypes_plain _ _ rfl, this]; decide
 
 /-- REFUTATION of `c17_tokens` as first stated: the exporter writes the scalar named `%` as
     `scalar %`, which is not even a token sequence (`%` starts no token), so the reference parser
@@ -541,9 +571,10 @@ theorem c17_compose_groups_spec (ds : List DirDef) : composeGroups ds = linkGrou
     registering: for every well-formed schema — `schemaOk` (decidable: names are Names, enum
     values are not true / false / null, values are printable, non-empty field / member / value /
     location lists, no `__` field, no deprecation on a type itself, locations are directive
-    locations) and, for a federation export, `federationOk` (decidable: no `_service` /
-    `_entities` field, no custom directive application named `tag` / `inaccessible`; composable
-    directive definitions and types named `Any` of any kind are allowed) — the text the repaired
+    locations) and, for a federation export, `federationOk` (decidable: no custom
+    directive application named `tag` / `inaccessible`; composable directive definitions, types
+    named `Any` of any kind and fields named `_service` / `_entities` are allowed: on the query
+    root of a federation export those two are federation machinery and left out on both sides) — the text the repaired
     exporter writes (compose blocks in order of first appearance), lexed by the specification's
     lexer and parsed by the reference parser, is the description of the registered schema
     (`cDoc`: directive applications compared up to the order of differently named directives; the
@@ -577,6 +608,7 @@ def federationWitness : Schema :=
                .input "In".toList a2 true [⟨"f".toList, a1, .named "Int".toList true, none⟩],
                .union "U".toList a2 ["Q".toList],
                .scalar "Any".toList {} none,
+               .object "Foo".toList {} false [] [⟨"_service".toList, {}, .named "Int".toList true, []⟩],
                .scalar "_Any".toList {} none,
                .scalar "S".toList a2 (some "u".toList) ] }
 
